@@ -1,8 +1,11 @@
 package config
 
 import (
+	"math"
 	"strconv"
 	"strings"
+
+	format "github.com/go-git/go-git/v6/plumbing/format/config"
 )
 
 // OptBool is a tri-state boolean: unset, explicitly false, or explicitly true.
@@ -77,6 +80,102 @@ func parseConfigBool(v string) OptBool {
 			return OptBoolTrue
 		}
 		return OptBoolFalse
+	}
+	return OptBoolUnset
+}
+
+// parseGitBool interprets the raw value of a boolean setting the way
+// upstream Git's git_config_bool does: true/yes/on and false/no/off in any
+// case and integers (zero is false) with the optional k/m/g unit suffix and
+// 0x/0 base prefix. ok is false for any other value; Git dies on those,
+// callers keep their default.
+//
+// The empty string is not decided here either: the format decoder stores
+// both a key without a value ("bare", true for Git) and a key with an empty
+// value ("bare =", false for Git) as "", so the two cannot be told apart and
+// the caller's default stays in place, as it did before.
+//
+// Reference: git_parse_maybe_bool_text, git_parse_int and git_config_bool
+// in parse.c and config.c at tag v2.54.0.
+func parseGitBool(v string) (val, ok bool) {
+	switch strings.ToLower(v) {
+	case "true", "yes", "on":
+		return true, true
+	case "false", "no", "off":
+		return false, true
+	}
+	if i, ok := parseGitInt(v); ok {
+		return i != 0, true
+	}
+	return false, false
+}
+
+// parseGitInt parses an integer setting as git_parse_int does: an optional
+// sign, base 16 or 8 selected by a 0x or 0 prefix, and an optional k, m or g
+// suffix that multiplies by a power of 1024. The result has to fit in a
+// 32-bit int, as for Git's "int" settings.
+func parseGitInt(v string) (int64, bool) {
+	neg := false
+	if v != "" && (v[0] == '+' || v[0] == '-') {
+		neg = v[0] == '-'
+		v = v[1:]
+	}
+
+	factor := int64(1)
+	if n := len(v); n > 0 {
+		switch v[n-1] {
+		case 'k', 'K':
+			factor = 1024
+		case 'm', 'M':
+			factor = 1024 * 1024
+		case 'g', 'G':
+			factor = 1024 * 1024 * 1024
+		}
+		if factor != 1 {
+			v = v[:n-1]
+		}
+	}
+
+	base := 10
+	switch {
+	case len(v) > 2 && (v[:2] == "0x" || v[:2] == "0X"):
+		base, v = 16, v[2:]
+	case len(v) > 1 && v[0] == '0':
+		base, v = 8, v[1:]
+	}
+
+	n, err := strconv.ParseUint(v, base, 31)
+	if err != nil || int64(n) > math.MaxInt32/factor {
+		return 0, false
+	}
+
+	val := int64(n) * factor
+	if neg {
+		val = -val
+	}
+	return val, true
+}
+
+// optionBool returns the value of a boolean option, or def when the key is
+// absent or holds something Git would not accept as a boolean.
+func optionBool(opts format.Options, key string, def bool) bool {
+	if !opts.Has(key) {
+		return def
+	}
+	if v, ok := parseGitBool(opts.Get(key)); ok {
+		return v
+	}
+	return def
+}
+
+// optionOptBool is optionBool for tri-state settings: absent or unparsable
+// keys stay unset.
+func optionOptBool(opts format.Options, key string) OptBool {
+	if !opts.Has(key) {
+		return OptBoolUnset
+	}
+	if v, ok := parseGitBool(opts.Get(key)); ok {
+		return NewOptBool(v)
 	}
 	return OptBoolUnset
 }
